@@ -101,14 +101,17 @@ def run(ctx):
                 break
             kind = script[step] if script else ctx.rng.choice(["array", "mask", "slice", "int", "pickle", "dict-flat", "dict-nested", "split-concat"])
             try:
+                # an index given as a plain Python list (of integers, or of booleans = a mask) means the same as the array;
+                # JAX itself rejects list indices, so lists are used under numpy and torch only
+                as_list = nsname != "jax" and ctx.rng.random() < 0.4
                 if kind == "array":
                     il = idx_list("array", m, ctx.rng)
-                    s = s[np.asarray(il)]
+                    s = s[list(il)] if as_list else s[np.asarray(il)]
                     ops.append(("IList", il))
                     cur_idx = [cur_idx[i] for i in il]
                 elif kind == "mask":
                     mk = idx_list("mask", m, ctx.rng)
-                    s = s[np.asarray(mk)]
+                    s = s[[bool(b) for b in mk]] if as_list else s[np.asarray(mk)]
                     ops.append(("IMask", mk))
                     cur_idx = [cur_idx[i] for i in range(m) if mk[i]]
                 elif kind == "slice":
